@@ -33,6 +33,7 @@ pub fn scenarios(thorough: bool) -> Vec<Scenario> {
     ];
     let mut two = crate::props::c01::pool_cfg();
     two.seal_actions = vec![None, Some(action_dest(1))];
+    two.odd_shapes = true;
     v.push(sc("custom02-pools-history", NetID::Custom02, 0, two, if thorough { 9 } else { 6 }));
     // the legacy deposit rule ends at 978392 on mainnet/testnet; TIP-902 changes the peg at 180000 (one request per block)
     let mut bc = cfg_requests();
